@@ -42,6 +42,10 @@ def check_filters(prop, tier, replay):
     sc = vlib.scratch()
     h = vlib.build_harness()
     want = CLASSES[prop]
+    mgen = mdist = 0
+    mnames = []
+    if prop == "C17":
+        mgen, mdist, mnames = vlib.model_check_all([("MCFilters", "MCFilters.cfg")])
     tot_terms = tot_lines = tot_evals = tot_pairs = eqpairs = 0
     samples = []
     for mode, eq in MODES[prop]:
@@ -79,7 +83,7 @@ def check_filters(prop, tier, replay):
                         r.pop("acc2", None)
                     samples.append(r)
     res.coverage = {
-        "states": tot_lines, "transitions": tot_lines,
+        "states": tot_lines + mdist, "transitions": tot_lines + mgen, "design_models": mnames,
         "traces_validated_against_impl": tot_terms,
         "samples": samples[:4],
         "exhaustive": True,
@@ -106,6 +110,7 @@ JOIN_CLASSES = {"join-ready-before-sides", "join-list-error", "join-not-ready", 
 @family("C09")
 def check_joins(prop, tier, replay):
     res = vlib.Result(prop, tier, "model_checking")
+    mgen, mdist, mnames = vlib.model_check_all([("Join", "Join.cfg")])
     sc = vlib.scratch()
     h = vlib.build_harness()
     nproc = 9
@@ -156,7 +161,7 @@ def check_joins(prop, tier, replay):
     if len(joins) < 9:
         raise Inconclusive("not every join was exercised: %s" % sorted(joins))
     res.coverage = {
-        "states": lines, "transitions": lines, "traces_validated_against_impl": per * nproc, "samples": samples,
+        "states": mdist, "transitions": mgen, "design_models": mnames, "traces_validated_against_impl": per * nproc, "samples": samples,
         "evaluations": snaps, "distinct_nontrivial": snaps,
         "rule": "seeded source/destination histories (sources that appear, change selector, disappear; pods with all label maps over 2 keys x 2 values in 2 namespaces) for each of the 8 generated joins and IngressPods; one record per quiescence; 2-3 create/close cycles of the join over long-lived base controllers with a goroutine census",
         "joins": sorted(joins), "snapshots": snaps,
